@@ -14,7 +14,8 @@ GROUPS of related objects built from
             | annotated on `__init__` only (postponed / evaluated / explicitly quoted) | nothing at all
             | attributes annotated like constructor parameters with other types (attr: float vs __init__(self, attr: str))
             | dataclass (also with KW_ONLY, ClassVar, an unresolvable field)
-            | TypedDict total / total=False / with NotRequired / a key named like a dict attribute / EMPTY / unresolvable only
+            | TypedDict total / total=False x NotRequired / Required keys / keys named like dict methods (items, keys, get)
+              / EMPTY / unresolvable hints only; a dict subclass that only has `__total__` (no `__required_keys__`)
             | typing.NamedTuple (with and without defaults) | collections.namedtuple with and without defaults
             | plain tuple subclass with and without annotations
   x layout  the class alone | a subclass in the SAME module | a subclass in the OTHER module (its own fields name Money / OnlyB of
@@ -35,7 +36,11 @@ BEFORE typelib touches an object its description is read with plain Python intro
 
     inspection.get_type_hints(obj, exhaustive)   inspection.signature(obj)
     inspection.cached_type_hints(obj)            inspection.cached_signature(obj)      (first visit and revisit)
-    binding._get_binding(obj): the type each parameter's unmarshaller was built for        (evaluated flavour)
+    binding._get_binding(obj): the type each parameter's unmarshaller was built for — asked FROM the second module (where
+        `Money` is another class and `Extra` is not bound), from this harness module (where none of the names is bound) and
+        from the first module, one copy of every object in the order B, harness, A and the other in the order harness, A, B,
+        in one process (`_get_binding` is memoised); compared with `bindTargets` (the annotation text resolved in the module
+        of the CALLABLE), both flavours
 
 Hints are compared as identities (a registry numbers runtime objects), forward references as (text, module).  Every description
 must satisfy the theorems' hypothesis `wf`.
@@ -49,10 +54,13 @@ Direct oracles, independent of the model (failures of the property on the real c
   * signature:  signature(cls) of a class that is neither a TypedDict nor a non-named tuple is inspect.signature(cls) as Python
                 computed it before the library saw the class, in every order of visits; a named tuple's parameters are its _fields
                 (unless a subclass overrides __init__);
-  * binding:    the annotation a parameter is converted with is inspect's annotation of THAT parameter;
+  * binding:    the annotation a parameter is converted with is inspect's annotation of THAT parameter; a string annotation
+                naming `s` is converted to what `s` is bound to in the module of the callable (NameError when it is not bound
+                there), whichever module binds it and in whichever order;
+  * typeddict:  signature / get_type_hints of a TypedDict never raise (an empty one, one without a resolvable hint: no
+                parameters, no hints); one keyword-only parameter per key of typing.get_type_hints, in order; a parameter has
+                no default iff its key is in `__required_keys__`, else the default `...`;
   * stability:  a revisit answers like the first visit.
-Known behaviour that is NOT judged (reported by the proof agent, counted): a TypedDict without a resolvable hint makes
-`signature` / exhaustive `get_type_hints` raise RecursionError.
 """
 from __future__ import annotations
 
@@ -63,8 +71,9 @@ from .. import core, iso, lean
 NAMES = ["Money", "Extra", "OnlyB", "Nope", "Tup", "int", "str", "float", "KW_ONLY"]
 PRELUDE = ("import collections, dataclasses, typing\nfrom typing import ClassVar, NotRequired, Required\n"
            "from dataclasses import KW_ONLY\n")
-A_BASE = "class Money:\n    amount: int\nclass Extra:\n    pass\nTup = (int, str)\n"
-B_BASE = "class Money:\n    cents: str\nclass OnlyB:\n    pass\n"
+BIND_HERE = "def _bind_here(o):\n    from typelib import binding\n    return binding._get_binding(o)\n"
+A_BASE = "class Money:\n    amount: int\nclass Extra:\n    pass\nTup = (int, str)\n" + BIND_HERE
+B_BASE = "class Money:\n    cents: str\nclass OnlyB:\n    pass\n" + BIND_HERE
 
 # token -> (field name, annotation text, quote it in the evaluated flavour, default source | None)
 TOK = {
@@ -73,6 +82,7 @@ TOK = {
     "q": ("q", "Nope", True, None), "kw": ("_", "KW_ONLY", False, None), "f": ("attr", "float", False, None),
     "mq": ("mq", "Money", True, None), "nr": ("nr", "NotRequired[int]", False, None), "items": ("items", "int", False, None),
     "x": ("extra", "Money", False, None),
+    "rq": ("rq", "Required[int]", False, None), "keys": ("keys", "str", False, None), "get": ("get", "Money", False, None),
 }
 
 
@@ -116,6 +126,11 @@ BASES = [
     {"k": "nt", "f": ["m", "n"]}, {"k": "nt", "f": ["m", "e"], "defaults": True},
     {"k": "cnt", "defaults": False}, {"k": "cnt", "defaults": True},
     {"k": "tsub", "f": []}, {"k": "tsub", "f": ["m"]},
+    {"k": "td", "f": ["rq", "n"], "total": False}, {"k": "td", "f": ["nr", "rq", "m"], "total": True},
+    {"k": "td", "f": ["nr", "rq", "m"], "total": False}, {"k": "td", "f": ["m", "nr"], "total": False},
+    {"k": "td", "f": ["items", "keys", "get"], "total": True}, {"k": "td", "f": ["keys", "items", "nr"], "total": False},
+    {"k": "td", "f": [], "total": False}, {"k": "td", "f": ["q", "n"], "total": False},
+    {"k": "dtot", "f": ["m", "n"], "total": True}, {"k": "dtot", "f": ["m", "items"], "total": False},
 ]
 
 
@@ -126,8 +141,10 @@ def base_source(spec, name, strings):
         return f"{name} = collections.namedtuple({name!r}, 'a b'{d})\n"
     head = {"plain": f"class {name}:", "dc": f"@dataclasses.dataclass\nclass {name}:",
             "td": f"class {name}(typing.TypedDict{'' if spec.get('total', True) else ', total=False'}):",
-            "nt": f"class {name}(typing.NamedTuple):", "tsub": f"class {name}(tuple):"}[k]
+            "nt": f"class {name}(typing.NamedTuple):", "tsub": f"class {name}(tuple):", "dtot": f"class {name}(dict):"}[k]
     body = _fields(toks, strings, defaults=spec.get("defaults", False))
+    if k == "dtot":     # `istypeddict` takes it for a TypedDict; it has no `__required_keys__`
+        body = f"    __total__ = {spec['total']}\n" + body
     init = spec.get("init")
     if init:
         ps = _params(toks, strings) if init == "fields" else INITS[init](strings)
@@ -241,8 +258,18 @@ def programs(strings):
                         "defs": [("A", 1, base_source(spec, b, strings)), ("B", 2, mid), ("A", 3, leaf)],
                         "objects": [(b, "A", b), (s, "B", s), (l, "A", l)]})
     for copy in ("fwd", "rev"):
-        out.append({"tag": "callables", "order": copy, "funcs": True, "defs": [], "objects": list(FUNC_OBJECTS)})
+        sfx = f"_{fresh()}"
+        out.append({"tag": "callables", "order": copy, "defs": [("A", 1, _suffixed(FUNCS_A, sfx)), ("B", 2, _suffixed(FUNCS_B, sfx))],
+                    "objects": [(_suffixed(lb, sfx), key, _suffixed(ex, sfx)) for lb, key, ex in FUNC_OBJECTS]})
     return out
+
+
+FUNC_NAMES = ["f1", "f2", "f3", "f4", "f5", "f6", "Meth", "Call1", "Call2", "Call3", "Call4", "NoCall", "g1", "g2", "MethB", "CallB"]
+
+
+def _suffixed(text, sfx):
+    import re
+    return re.sub(r"\b(" + "|".join(FUNC_NAMES) + r")\b", lambda m: m.group(1) + sfx, text)
 
 
 # --------------------------------------------------------------------------- child: build, describe, observe
@@ -365,9 +392,12 @@ def describe_class(cls, reg):
         mro.append({"id": reg.num(k), "module": k.__module__,
                     "ns": [[n, bound_of(d[n], reg)] for n in NAMES if n in d],
                     "anns": [[n, ann_expr(v, reg)] for n, v in anns.items()], "ctor": ctor})
-    if typing.is_typeddict(cls):
-        keys = list(vars(cls).get("__annotations__") or {})
-        kind = ["typedDict", bool(cls.__total__), [k for k in keys if k in cls.__required_keys__], [k for k in keys if hasattr(cls, k)]]
+    if dict in cls.__mro__ and hasattr(cls, "__total__"):     # what the library takes for a TypedDict
+        keys = []
+        for k in reversed(cls.__mro__):
+            keys += [n for n in (vars(k).get("__annotations__") or {}) if n not in keys]
+        req = getattr(cls, "__required_keys__", None)
+        kind = ["typedDict", bool(cls.__total__), None if req is None else [k for k in keys if k in req], [k for k in keys if hasattr(cls, k)]]
     elif issubclass(cls, tuple):
         kind = ["namedTuple"] if hasattr(cls, "_fields") else ["tupleSub"]
     elif dataclasses.is_dataclass(cls):
@@ -442,13 +472,51 @@ def pristine(o, reg):
                 if found is not _MISSING and found is not dataclasses.KW_ONLY and type(found) is not tuple:
                     exp[n] = hint_of(found, reg)
         out["declared_in_module"] = exp
+        if typing.is_typeddict(o):
+            out["required_keys"] = sorted(o.__required_keys__)
+    out["bindable"], out["bind_expected"] = _bind_expectation(o, reg)
     return out
+
+
+def _bind_expectation(o, reg):
+    """(is the binder observed for this object, what Python says each parameter must be converted to): the annotation itself, and
+    for a string annotation naming `s` what `s` is bound to in the module of the callable (`obj.__module__`), then builtins."""
+    import builtins
+    import inspect
+    import sys
+    try:
+        sig = inspect.signature(o)
+    except (ValueError, TypeError):
+        return False, None
+    md = vars(sys.modules.get(getattr(o, "__module__", None), builtins))
+    out, ok = [], True
+    for n, p in sig.parameters.items():
+        a = p.annotation
+        if a is inspect.Parameter.empty:
+            out.append([n, None])
+        elif isinstance(a, type):
+            out.append([n, hint_of(a, reg)])
+        elif a.__class__ is str and a.isidentifier():
+            found = md[a] if a in md else getattr(builtins, a, _MISSING)
+            if found is _MISSING:
+                return ok, {"err": "NameError"}
+            if type(found) is tuple:
+                return ok, {"err": "TypeError"}
+            out.append([n, hint_of(found, reg)])
+        else:
+            ok = False
+    return ok, {"targets": out}
 
 
 _MISSING = object()
 
 
-def observe(o, reg, I, with_binding):
+def _bind_from_harness(o):
+    from typelib import binding
+    return binding._get_binding(o)   # noqa: SLF001
+
+
+def observe(o, reg, I, callers):
     import inspect
     sig_view = lambda s: params_of(s, reg)   # noqa: E731
     r = {"hints": {"false": _attempt(lambda: I.get_type_hints(o, False), lambda h: _rows(h, reg)),
@@ -456,25 +524,17 @@ def observe(o, reg, I, with_binding):
          "signature": _attempt(lambda: I.signature(o), sig_view),
          "cached_hints": _attempt(lambda: I.cached_type_hints(o), lambda h: _rows(h, reg)),
          "cached_signature": _attempt(lambda: I.cached_signature(o), sig_view)}
-    if with_binding:
-        def bound():
-            from typelib import binding
-            b = binding._get_binding(o)   # noqa: SLF001
-            out = []
-            for i, (n, p) in enumerate(b.signature.parameters.items()):
-                u = (b.varpos if p.kind is p.VAR_POSITIONAL else b.varkwd if p.kind is p.VAR_KEYWORD
-                     else b.binding[i] if p.kind is p.POSITIONAL_ONLY else b.binding[n])
-                t = getattr(u, "t", _MISSING)
-                out.append([n, ["missing"] if t is inspect.Parameter.empty else ["obj", hint_of(t, reg)]])
-            return out
-        r["binding"] = _attempt(bound, lambda x: x)
+    def view(b):
+        out = []
+        for i, (n, p) in enumerate(b.signature.parameters.items()):
+            u = (b.varpos if p.kind is p.VAR_POSITIONAL else b.varkwd if p.kind is p.VAR_KEYWORD
+                 else b.binding[i] if p.kind is p.POSITIONAL_ONLY else b.binding[n])
+            t = getattr(u, "t", _MISSING)
+            out.append([n, None if t is inspect.Parameter.empty else hint_of(t, reg)])
+        return {"targets": out}
+    if callers:
+        r["binding"] = [[name, _attempt(lambda: fn(o), view)] for name, fn in callers]   # noqa: B023
     return r
-
-
-def _bindable(desc_params):
-    """Only plain identities / missing annotations: what an unmarshaller is built for is then the annotation itself."""
-    return desc_params is not None and all(p["ann"][0] == "missing" or (p["ann"][0] == "obj" and p["ann"][1][0] == "ty")
-                                           for p in desc_params)
 
 
 def _child(job):
@@ -511,9 +571,6 @@ def _child(job):
                     except (TypeError, ValueError, NameError) as e:
                         p["refused"] = f"{type(e).__name__}: {e}"
                         refused += 1
-    if any(p.get("funcs") for p in progs):
-        run("A", FUNCS_A)
-        run("B", FUNCS_B)
     reg = Registry()
     for key in ("A", "B"):
         for n in NAMES:
@@ -541,19 +598,24 @@ def _child(job):
                        "src": [[names[k], s.replace("{A}", names["A"]).replace("{B}", names["B"])] for k, _, s in p["defs"]]})
     # 2. the library, group by group in the chosen order; 3. everything again, backwards
     from typelib.py import inspection as I   # noqa: N812
+    who = {"B": (names["B"], mods["B"]._bind_here), "H": (__name__, _bind_from_harness), "A": (names["A"], mods["A"]._bind_here)}
+
+    def callers_for(g, it):
+        d = it["desc"]
+        judged = "func" in d or "inst" in d or ("cls" in d and d["cls"]["kind"][0] in ("plain", "dataclass", "namedTuple"))
+        if not (judged and it["pristine"]["bindable"]):
+            return []
+        return [who[k] for k in (("B", "H", "A") if g["order"] == "fwd" else ("H", "A", "B"))]
+
     for g in groups:
         for i in g["visit"]:
             it = g["items"][i]
-            ps = it["pristine"]["inspect"]
-            d = it["desc"]
-            judged = "func" in d or "inst" in d or ("cls" in d and d["cls"]["kind"][0] in ("plain", "dataclass", "namedTuple"))
-            wb = (not strings) and judged and isinstance(ps, list) and _bindable(ps)
-            it["visits"].append(observe(g["objs"][i], reg, I, wb))
+            it["visits"].append(observe(g["objs"][i], reg, I, callers_for(g, it)))
     for g in reversed(groups):
         for i in reversed(g["visit"]):
             it = g["items"][i]
-            it["visits"].append(observe(g["objs"][i], reg, I, "binding" in it["visits"][0]))
-    return {"env": env, "refused": refused, "strings": strings,
+            it["visits"].append(observe(g["objs"][i], reg, I, callers_for(g, it)))
+    return {"env": env, "refused": refused, "strings": strings, "harness_module": __name__,
             "groups": [{k: g[k] for k in ("gi", "tag", "order", "visit", "items", "src")} for g in groups]}
 
 
@@ -594,7 +656,8 @@ def hints_correspondence(res, outs=None):
                 index.append((oi, gi, ii, len(ops)))
                 ops.append({"op": "hints.get", "obj": it["desc"], "env": out["env"], "exhaustive": False})
                 ops.append({"op": "hints.get", "obj": it["desc"], "env": out["env"], "exhaustive": True})
-                ops.append({"op": "hints.signature", "obj": it["desc"], "env": out["env"]})
+                ops.append({"op": "hints.signature", "obj": it["desc"], "env": out["env"],
+                            "callers": [c for c, _ in it["visits"][0].get("binding", [])]})
             seq = [g["items"][i]["desc"] for i in g["visit"] if "unsupported" not in g["items"][i]["desc"]]
             g["seq_op"] = len(ops)
             ops.append({"op": "hints.seq", "env": out["env"], "objs": seq})
@@ -658,15 +721,18 @@ def hints_correspondence(res, outs=None):
         else:
             disagree("cached: cached_type_hints(obj) / cached_signature(obj) differ from getTypeHints(.., true) / signatureOf",
                      {"hints": first["cached_hints"], "signature": first["cached_signature"]}, {"hints": want["true"], "signature": wsig})
-        if "binding" in first:
-            res.case({**brief, "q": "binding"}, True)
-            if isinstance(first["binding"], dict):
-                res.count("hints:binding:real-raises:" + first["binding"]["err"])
-            elif first["binding"] == m_sig["param_annotations"]:
-                res.count("hints:binding:ok")
+        for (caller, real_b), mod_b, pre_b in zip(first.get("binding", []), m_sig["bind_targets"], m_sig["mutants"]["preF5b21b1"]):
+            res.case({**brief, "q": "binding", "from": caller}, True)
+            if mod_b.get("err") == "signature" and real_b.get("err") in ("TypeError", "ValueError"):
+                mod_b = real_b          # (no signature: whatever inspect raised)
+            if real_b == mod_b:
+                res.count("hints:binding:ok" + (":" + mod_b["err"] if "err" in mod_b else ""))
             else:
-                disagree("binding: the type each parameter's unmarshaller of binding._get_binding(obj) is built for differs from paramAnnotations",
-                         first["binding"], m_sig["param_annotations"])
+                disagree("binding: the type each parameter's unmarshaller of binding._get_binding(obj) is built for differs from bindTargets "
+                         "(string annotations resolved in the module of the callable)", real_b, mod_b,
+                         {"bound_from": caller, "callers_in_order": [c for c, _ in first["binding"]]})
+            if pre_b != m_sig["bind_targets"][0]:
+                res.count("hints:mutant-would-differ:preF5b21b1")
         # which theorems' `_needed` witnesses the real descriptions reach
         for k, v in m_false["mutants"].items():
             if _model_hints(v) != want["false"]:
@@ -677,8 +743,10 @@ def hints_correspondence(res, outs=None):
             res.count("hints:mutant-would-differ:c15h")
         if m_sig["mutants"]["c10g"] != m_sig["param_annotations"]:
             res.count("hints:mutant-would-differ:c10g")
-        if isinstance(want["true"], dict):
-            res.count("hints:observed:typeddict-without-resolvable-hint-RecursionError")
+        if _model_hints(m_true["mutants"]["pre87eadd9"]) != want["true"] or _model_sig(m_sig["mutants"]["pre87eadd9"]) != wsig:
+            res.count("hints:mutant-would-differ:pre87eadd9")
+        if _model_sig(m_sig["mutants"]["pre629e6a2"]) != wsig:
+            res.count("hints:mutant-would-differ:pre629e6a2")
         # ---- direct oracles (no model)
         ps = it["pristine"]
         if again != first:
@@ -716,11 +784,23 @@ def hints_correspondence(res, outs=None):
                     fail("signature: the parameters of a named tuple are not its _fields", {"real": first["signature"], "_fields": ps["fields"]})
                 else:
                     res.count("hints:oracle:signature-ok")
-        if "binding" in first and isinstance(first["binding"], list) and isinstance(ps["inspect"], list):
-            exp = [[p["name"], p["ann"]] for p in ps["inspect"]]
-            if first["binding"] != exp:
-                fail("binding: a parameter is converted with an annotation that is not its own (inspect.signature)",
-                     {"real": first["binding"], "inspect": exp})
+        if kind == "cls" and "required_keys" in ps:      # a typing.TypedDict
+            sig, hts = first["signature"], first["hints"]["true"]
+            tnames = ps["typing"].get("names") if isinstance(ps["typing"], dict) else None
+            if not isinstance(sig, list) or not isinstance(hts, list):
+                fail("typeddict: signature / get_type_hints of a TypedDict raised", {"signature": sig, "get_type_hints": hts})
+            elif [p["name"] for p in sig] != (tnames or []) or any(p["kind"] != "kwOnly" for p in sig):
+                fail("typeddict: not one keyword-only parameter per key of typing.get_type_hints, in order",
+                     {"real": sig, "typing": ps["typing"]})
+            elif [[p["name"], p["dflt"]] for p in sig] != [[p["name"], "none" if p["name"] in ps["required_keys"] else "ellipsis"] for p in sig]:
+                fail("typeddict: a parameter must have no default iff its key is in __required_keys__, else the default `...`",
+                     {"real": [[p["name"], p["dflt"]] for p in sig], "__required_keys__": ps["required_keys"]})
+            else:
+                res.count("hints:oracle:typeddict-ok")
+        for caller, real_b in first.get("binding", []):
+            if real_b != ps["bind_expected"] and not ("err" in real_b and ps["bind_expected"] is None):
+                fail("binding: a parameter is not converted to its own annotation — a string annotation to what it names in the module of the callable",
+                     {"bound_from": caller, "callers_in_order": [c for c, _ in first["binding"]], "real": real_b, "expected": ps["bind_expected"]})
             else:
                 res.count("hints:oracle:binding-ok")
     return res
